@@ -18,7 +18,8 @@ CHECK = {
         "tolerance 64 ulp x (8 + 4 x steps) x (E_primary + 2mc^2)",
         "Urban MSC variants use a synthetic transport cross section (lambda_tr = E^2 / 20 MeV^2/cm)",
     ],
-    "bounds": {"quick": {"deviations": 2}, "thorough": {"deviations": 3}},
+    "bounds": {"extra_roots": "same executions as C05 (shared harness): boundary arrival below / above the tracking cut; MSC with a starved stack and an at-rest deferral",
+               "quick": {"deviations": 2}, "thorough": {"deviations": 3}},
     "parts": [
         {"name": "energy", "harness": "c01_energy", "flavour": "rel",
          "shards": {"quick": 16, "thorough": 16}, "deadline": {"quick": 100, "thorough": 1200}},
